@@ -810,6 +810,31 @@ def r13_asserted_capacity(run, F):
     run.floor("R13-ASSERTED-CAPACITY", 1, "asserted never-grown vectors of ParseTree (declarations)")
 
 
+def r14_alloc_failure_propagated(run, F):
+    """The token and node buffers are bounded; a push that does not fit returns an error which ends the run with E103 / E390.
+    The parser's cursor arithmetic (R11) relies on every push having happened: a push whose failure is swallowed (`.ok()`,
+    `let _ =`, a bare statement) leaves the buffer one token short -- with the second end marker missing, `skip_until` runs
+    off the end of the token array.  In the second-generation lexer and parser no value of a type `Result<_, TokenAllocError>`,
+    `Result<_, ParsingError>` or `Result<_, LexingError>` produced by a call is thrown away."""
+    n = 0
+    for p, b in sorted(F.lib.bodies.items()):
+        if "hir" not in b or "/delta/" not in b["file"] or F.rel(b["file"]).endswith("fuzzer.rs"):
+            continue
+
+        def fallible(x):
+            if x.get("k") not in ("Call", "MethodCall") or x.get("t") is None or (x.get("ck") or "").startswith("Ctor"):
+                return False
+            ty = F.lib.types[x["t"]]
+            return ty.startswith("std::result::Result<") and any(e in ty for e in ("TokenAllocError", "ParsingError", "LexingError"))
+        sites = [x for x in walk(b["hir"]) if fallible(x)]
+        n += len(sites)
+        for x, how in hirq.discarded_values(b["hir"], fallible):
+            run.ob("R14-ALLOC-FAILURE-PROPAGATED", "%s|%s" % (p.split("delta::")[-1], (hirq.callee(x) or x.get("name") or "?").split("::")[-1]), False, F.where(b, x),
+                   "the result of %s is thrown away (`%s`): a full buffer would go unnoticed and the parser would read past what was pushed" % (
+                       (hirq.callee(x) or x.get("name") or "?").split("::")[-1], how))
+    run.ob("R14-ALLOC-FAILURE-PROPAGATED", "scan", n >= 150, "src/delta", "%d fallible calls of the second-generation lexer and parser examined (floor 150); none is discarded" % n)
+
+
 def check(run):
     F = run.facts("A")
     r13_asserted_capacity(run, F)
@@ -824,6 +849,7 @@ def check(run):
     r11_eos(run, F)
     r11b_one_take_past_end(run, F)
     r12_protocol(run, F)
+    r14_alloc_failure_propagated(run, F)
     # "every input containing an invalid lexeme is rejected": the digit classifiers decide which bytes a literal swallows
     from props import c14
     c14.r7_digit_tables(run, F)
